@@ -82,3 +82,19 @@ Definition rate_t3_r (rnd : Q -> Q) (time rate accel jerk : Z) : Z :=
 (* a binary64 number: k / 2^n with |k| < 2^53 *)
 Definition rep53 (x : Q) : Prop := exists k n : Z, 0 <= n /\ Z.abs k < 2 ^ 53 /\ (x == iz k / iz (2 ^ n))%Q.
 
+
+(* max_rate_t3 in CPython's arithmetic: the vertex of the rate parabola t_mid = (jerk/2 - accel) / jerk is a binary64 quotient, compared
+   with 1.5 and time - 1.5 and rounded up with math.ceil; the three rates come from rate_t3 (floats, above) *)
+Definition max_rate_t3_r (rnd : Q -> Q) (time rate accel jerk : Z) : Z :=
+  let v_start := Z.abs (rate_t3_r rnd 1 rate accel jerk) in
+  if time <=? 1 then v_start else
+  let v_end := Z.abs (rate_t3_r rnd time rate accel jerk) in
+  if jerk =? 0 then Z.max v_start v_end else
+  let f1 := rnd (iz jerk / 2)%Q in
+  let f2 := rnd (f1 - iz accel)%Q in
+  let t_mid := rnd (f2 / iz jerk)%Q in
+  let hi := rnd (iz time - (3 # 2))%Q in
+  if Qltb (3 # 2) t_mid && Qltb t_mid hi then
+    let v_mid := Z.abs (rate_t3_r rnd (Qceiling t_mid) rate accel jerk) in
+    Z.max (Z.max v_start v_end) v_mid
+  else Z.max v_start v_end.
